@@ -754,3 +754,21 @@ class Program:
         while par.get(out[-1]) is not None:
             out.append(par[out[-1]])
         return list(reversed(out))
+
+
+def switches(fn):
+    """[(bb, operand, {value: target}, else_target)] of every reachable SwitchInt."""
+    out = []
+    for bi in sorted(fn.reachable()):
+        t = fn.blocks[bi]['t']
+        if t['k'] == 'switch':
+            out.append((bi, t['on'], {v: b for v, b in t['ts']}, t['else']))
+    return out
+
+
+def guarded_by_edges(fn, bb, edges):
+    """every path entry -> bb takes one of `edges` [(a, b)]: i.e. bb becomes unreachable once
+    every *other* way out of the blocks `a` is kept but ... (precisely: bb is unreachable when
+    the complementary edges are the only ones removed is NOT what we want) -- we remove the
+    listed edges and ask whether bb is still reachable; if it is, some path avoids them."""
+    return bb in fn.reachable() and bb not in fn.reach(0, skip_edges=edges)
